@@ -394,10 +394,12 @@ def r06_7(ctx, m):
     component is filed under that tag."""
     repo = ctx.repo
     nc = None
-    for c in walk_own(m.run.node):
+    from ..core import same_func
+
+    for c in walk_own(m.run0.node):
         if isinstance(c, ast.Call):
-            h = repo.resolve_call(m.run, c)
-            if h is not None and h.module is m.mod and any(isinstance(x, ast.For) for x in h.node.body) and h is not m.dec:
+            h = repo.resolve_call(m.run0, c)
+            if h is not None and h.module is m.mod and any(isinstance(x, ast.For) for x in h.node.body) and not same_func(h, m.dec):
                 rets = [r for r in walk_own(h.node) if isinstance(r, ast.Return) and r.value is not None]
                 if rets and any(isinstance(st, ast.Assign) and isinstance(st.targets[0], ast.Subscript) and norm(st.targets[0].value) == norm(rets[-1].value) for st in walk_own(h.node)):
                     nc = h
